@@ -29,6 +29,10 @@ type Plan struct {
 	AttackHeight int64 `json:"attack_height,omitempty"`
 	// Crashes of correct validators
 	Crashes []CrashSpec `json:"crashes,omitempty"`
+	// ImportCbDelayMs/P: completion callbacks of block imports requested by the engines are
+	// delayed by up to this many milliseconds with this probability
+	ImportCbDelayMs int     `json:"import_cb_delay_ms,omitempty"`
+	ImportCbDelayP  float64 `json:"import_cb_delay_p,omitempty"`
 	// DropRound0At: at these heights every round-0 proposal and block part is
 	// dropped, so that the height needs at least one more round
 	DropRound0At []int64 `json:"drop_round0_at,omitempty"`
